@@ -201,7 +201,11 @@ class Gen:
 				chans += [a, b]
 			if rng.random() < 0.05:
 				chans.append(rng.choice(self.pool))  # odd trailing frequency (don't-care)
-			self.cmd(i, "SETFH %d %d %s" % (hsn, maio, " ".join(str(c) for c in chans)))
+			text = "SETFH %d %d %s" % (hsn, maio, " ".join(str(c) for c in chans))
+			while len(text) + 5 > 1024:  # no L1 composes more than 1024 octets (trxcon's TRXC buffer)
+				chans = chans[:-2]
+				text = "SETFH %d %d %s" % (hsn, maio, " ".join(str(c) for c in chans))
+			self.cmd(i, text)
 			self.st[i]["fh"] = True
 
 	def op_power(self):
